@@ -579,6 +579,20 @@ func feeHistory(e *Env, h int) bool {
 			w.anteOracle("direct", md.name, height, mg, payer, granter, fee, gas, cls, pre, post)
 		}
 		// ---------------- Burn
+		// the x/fee module account is not necessarily empty when a burn runs: somebody sends it coins of the fee denom and of
+		// another denom first (every second history); a burn must still destroy exactly floor(ratio x amount) of the fee denom
+		if h%2 == 1 {
+			dep := sdk.NewCoins(sdk.NewInt64Coin(w.feeDenom, int64(1000+r.N(100000))))
+			for _, d := range feeDenoms {
+				if d != w.feeDenom && r.N(2) == 0 {
+					dep = dep.Add(sdk.NewInt64Coin(d, int64(1+r.N(5000))))
+				}
+			}
+			e.In("send a0 module:fee coins=%s", feeCoinsStr(dep))
+			err, p := c.Call(func(ctx sdk.Context) error { return c.App.BankKeeper.SendCoins(ctx, c.Accs[0].Addr, w.addr("module:fee"), dep) })
+			e.Obs("%s %s", class(err, p), w.snap(c.Ctx()))
+			e.Stat("deposit_into_fee_module." + class(err, p))
+		}
 		for k := 0; k < 5; k++ {
 			var cs sdk.Coins
 			n := 1 + r.N(2)
